@@ -46,14 +46,17 @@ fn oracle(s: &ProgScene<X>, t: &Trace) -> Vec<Violation> {
     let mode = if x.racy { "racy" } else { "exact" };
     let term = an.task_end(0);
     let term_time = term.map(|(i, _)| t.log[i].time);
+    // durations in virtual ticks (the scene may use a tick shorter than the clock's millisecond)
+    let tick_us = s.roles[0].tick_us;
+    let eff = |d: u32| crate::world::eff_ticks(d, tick_us);
     for (a, in_handler) in &x.timers {
         let id = timer_id(a);
         let t0: u64 = if *in_handler { 1 } else { 0 };
         let (kind, p, repeating, exec) = match a {
-            Action::Interval { period, .. } => ("interval", *period as u64, true, false),
-            Action::IntervalWith { period, .. } => ("interval_with", *period as u64, true, false),
-            Action::DelayedSend { delay, .. } => ("delayed_send", *delay as u64, false, false),
-            Action::DelayedExec { delay, .. } => ("delayed_exec", *delay as u64, false, true),
+            Action::Interval { period, .. } => ("interval", eff(*period), true, false),
+            Action::IntervalWith { period, .. } => ("interval_with", eff(*period), true, false),
+            Action::DelayedSend { delay, .. } => ("delayed_send", eff(*delay), false, false),
+            Action::DelayedExec { delay, .. } => ("delayed_exec", eff(*delay), false, true),
             _ => continue,
         };
         let fires: Vec<(usize, u64)> = an
@@ -69,7 +72,7 @@ fn oracle(s: &ProgScene<X>, t: &Trace) -> Vec<Violation> {
         // always: the k-th delivery is not before t0 + k*P; one-shots at most once
         for (k, (_, time)) in fires.iter().enumerate().filter(|_| !x.restarted) {
             crate::check::oblige("not-before-period");
-            let earliest = t0 + (k as u64 + 1) * p;
+            let earliest = t0.saturating_add((k as u64 + 1).saturating_mul(p));
             if *time < earliest {
                 out.push(Violation {
                     clause: "not-before-period",
@@ -84,6 +87,22 @@ fn oracle(s: &ProgScene<X>, t: &Trace) -> Vec<Violation> {
                 key: format!("C10/{kind}/fired-twice/{mode}"),
                 detail: format!("{kind}({p}) fired {} times", fires.len()),
             });
+        }
+        // a delayed_exec armed for longer than anybody will wait stays armed: its future lives
+        // until the actor goes (stopped(), or the end of a failed actor's task), not a moment less
+        if exec && p >= u64::MAX / 4 && !x.restarted {
+            crate::check::oblige("armed-until-the-end");
+            let dropped = t.log.iter().position(|e| matches!(e.ev, crate::world::Ev::Ctx { a: 0, op: crate::world::CtxOp::ExecDropped(tm), .. } if tm == id));
+            let going = an.enters.iter().find(|e| e.a == 0 && e.cb == Cb::Stopped).map(|e| e.idx).into_iter().chain(term.map(|(i, _)| i)).min();
+            if let Some(d) = dropped {
+                if going.is_none_or(|g| d < g) {
+                    out.push(Violation {
+                        clause: "armed-until-the-end",
+                        key: format!("C10/{kind}/future-dropped-while-armed/{mode}"),
+                        detail: format!("the future given to {kind} (due in ages) was dropped at t={} while its actor was alive and well", t.log[d].time),
+                    });
+                }
+            }
         }
         // never after termination
         if let Some((tidx, _)) = term {
@@ -106,9 +125,9 @@ fn oracle(s: &ProgScene<X>, t: &Trace) -> Vec<Violation> {
             let limit = term_time.unwrap_or(s_horizon(s)).min(s_horizon(s));
             let mut expected: Vec<u64> = vec![];
             let mut optional: Vec<u64> = vec![];
-            let mut k = 1;
+            let mut k: u64 = 1;
             loop {
-                let at = t0 + k * p;
+                let at = t0.saturating_add(k.saturating_mul(p));
                 if at > limit {
                     break;
                 }
@@ -151,9 +170,9 @@ fn oracle(s: &ProgScene<X>, t: &Trace) -> Vec<Violation> {
                 }
                 let id = timer_id(a);
                 let (times, exec): (Vec<u64>, bool) = match *a {
-                    Action::Interval { period, .. } | Action::IntervalWith { period, .. } if period > 0 => ((1..).map(|k| st.time + k * period as u64).take_while(|x| *x < end).collect(), false),
-                    Action::DelayedSend { delay, .. } => (Some(st.time + delay as u64).into_iter().filter(|x| *x < end).collect(), false),
-                    Action::DelayedExec { delay, .. } => (Some(st.time + delay as u64).into_iter().filter(|x| *x < end).collect(), true),
+                    Action::Interval { period, .. } | Action::IntervalWith { period, .. } if period > 0 => ((1..).map(|k| st.time.saturating_add(eff(period).saturating_mul(k))).take_while(|x| *x < end).collect(), false),
+                    Action::DelayedSend { delay, .. } => (Some(st.time.saturating_add(eff(delay))).into_iter().filter(|x| *x < end).collect(), false),
+                    Action::DelayedExec { delay, .. } => (Some(st.time.saturating_add(eff(delay))).into_iter().filter(|x| *x < end).collect(), true),
                     _ => continue,
                 };
                 for at in times {
@@ -215,7 +234,7 @@ const HORIZON: u64 = 9;
 const SLOW_HORIZON: u64 = 60;
 
 fn make_case(timers: &[(Action, bool)], term: Term, term_time: u32, mailbox: Mailbox, work: Work, racy: bool, early: u32) -> Case {
-    let mut role = RoleCfg { tick_work: work, ..RoleCfg::default() };
+    let mut role = RoleCfg { tick_work: work, tick_us: TICK_US.with(|t| t.get()), ..RoleCfg::default() };
     let mut ops = vec![];
     let mut any_handler = false;
     for (a, in_handler) in timers {
@@ -335,6 +354,11 @@ fn with_restart_first<T>(at: u32, recreate: bool, f: impl FnOnce() -> T) -> T {
     v
 }
 
+thread_local! {
+    /// length of a scene tick in microseconds for the cases being generated
+    static TICK_US: std::cell::Cell<u32> = const { std::cell::Cell::new(1000) };
+}
+
 fn timer_of(kind: u8, id: u8, p: u32) -> Action {
     match kind {
         0 => Action::Interval { timer: id, period: p },
@@ -375,6 +399,32 @@ fn plain_cases(tier: Tier) -> Vec<Case> {
                                 }
                             }
                         }
+                    }
+                }
+            }
+        }
+    }
+    // durations below the clock's resolution (a tick of 0.5 ms: 1 tick = 0.5 ms, 3 ticks = 1.5 ms)
+    // and durations no run will see the end of (2^62 s, Duration::MAX): a short wait is not no
+    // wait, a long one is not a short one
+    for kind in 0..4u8 {
+        for in_handler in [false, true] {
+            for &mb in &[Mailbox::U, Mailbox::B(0)] {
+                for &term in &[Term::Stop, Term::Drop, Term::Never] {
+                    let tt = if term == Term::Never { 0 } else { 4 };
+                    TICK_US.with(|t| t.set(500));
+                    for p in [1u32, 3] {
+                        let mut c = make_case(&[(timer_of(kind, 1, p), in_handler)], term, tt, mb, Work::default(), false, 0);
+                        c.desc = c.desc.replacen("timers", "timers [tick = 0.5 ms]", 1);
+                        // (the real tokio clock of the cross-check is coarser than that)
+                        c.exec.real_crosscheck = false;
+                        v.push(c);
+                    }
+                    TICK_US.with(|t| t.set(1000));
+                    for p in [crate::world::AGES, crate::world::FOREVER] {
+                        let mut c = make_case(&[(timer_of(kind, 1, p), in_handler)], term, tt, mb, Work::default(), false, 0);
+                        c.exec.real_crosscheck = false;
+                        v.push(c);
                     }
                 }
             }
@@ -504,7 +554,7 @@ pub fn property() -> Property {
     Property {
         id: "C10",
         cases,
-        clauses: &["not-before-period", "no-fire-after-termination", "exact-period", "no-timer-task-leaked"],
+        clauses: &["not-before-period", "no-fire-after-termination", "exact-period", "no-timer-task-leaked", "armed-until-the-end"],
         full_rerun_check: true,
         assumptions: &[
             "exact clauses use discrete-event time (the clock advances only when nothing is runnable) and instant handlers; the racy runs let up to two deadlines fire although tasks are runnable and check the one-sided clauses only",
